@@ -1884,12 +1884,16 @@ BTree_rangeSearch(BTree *self, PyObject *args, PyObject *kw, char type)
     /* The buckets differ, or they're the same and the offsets show a non-
     * empty range.
     */
-    if (lowbucket != highbucket)   /* different buckets */
+    if (lowbucket != highbucket   /* different buckets */
+        && !(min == Py_None && !excludemin)
+        && !(max == Py_None && !excludemax))
     {
         /* This is needed even when an end is not user-supplied:  an
          * exclusive open end moves to the neighbouring bucket when the
          * first (last) bucket holds a single key, which can carry it past
-         * the other end.
+         * the other end.  Only an end that is the very first (last) key of
+         * the tree cannot lie beyond the other one;  in particular plain
+         * iteration never compares keys.
          */
         KEY_TYPE first;
         KEY_TYPE last;
